@@ -1,4 +1,58 @@
 (* C15 — State accessors are exact and state copies are independent.
-   Statements only; proofs live in Ssz/TreeView.v. *)
+   Statements only; proofs live in Ssz/TreeView.v.  A tree-backed state is a container tree whose positions
+   (generalized indices) hold the fields; typed sub-views are positions below a field. *)
 From Coq Require Import NArith List.
 From V Require Import Ssz.SszCore Ssz.TreeView.
+Import ListNotations.
+
+Section C15.
+  Variable H : bytes -> bytes.
+
+  (* a getter returns exactly what the setter of the same field stored *)
+  Theorem C15_get_set_same : forall d t i x t', set_field H d t i x = Some t' -> get_field d t' i = Some x.
+  Proof. exact (field_get_set_same H). Qed.
+
+  (* a setter changes that field and nothing else *)
+  Theorem C15_get_set_other : forall d t i j x t',
+      (i < Nat.pow 2 d)%nat -> (j < Nat.pow 2 d)%nat -> i <> j ->
+      set_field H d t i x = Some t' -> get_field d t' j = get_field d t j.
+  Proof. exact (field_get_set_other H). Qed.
+  Theorem C15_set_disjoint_positions : forall n p q x n', set H n p x = Some n' -> disjoint p q -> get n' q = get n q.
+  Proof. exact (get_set_other H). Qed.
+
+  (* typed sub-views read and write the element they name: writing x at position q of the sub-view at position p,
+     then storing the sub-view back (the parent hook), is writing x at position p ++ q of the parent *)
+  Theorem C15_subview_write_through : forall n p q x sub sub' n',
+      get n p = Some sub -> set H sub q x = Some sub' -> set H n p sub' = Some n' ->
+      set H n (p ++ q) x = Some n' /\ get n' (p ++ q) = Some x.
+  Proof. exact (subview_write_through H). Qed.
+
+  (* copies: a copy is a new view on the same backing; any operation on one view of the store leaves every other
+     view exactly as it was (shared nodes are never modified) *)
+  Theorem C15_copy_shares_and_preserves : forall s v s', step H s (OCopy v) = Some s' ->
+      nth_error s' (length s) = nth_error s v /\ forall w, (w < length s)%nat -> nth_error s' w = nth_error s w.
+  Proof. exact (copy_independent H). Qed.
+  Theorem C15_copy_independent : forall s o s' w,
+      step H s o = Some s' -> (match o with OSet v _ _ => w <> v | OCopy _ => True end) -> (w < length s)%nat ->
+      nth_error s' w = nth_error s w.
+  Proof. exact (step_other_unchanged H). Qed.
+End C15.
+Print Assumptions C15_get_set_same.
+Print Assumptions C15_get_set_other.
+Print Assumptions C15_set_disjoint_positions.
+Print Assumptions C15_subview_write_through.
+Print Assumptions C15_copy_shares_and_preserves.
+Print Assumptions C15_copy_independent.
+
+(* The independence half is proved for the tree representation; that Go's ztyp nodes are not mutated in place, and
+   that EpochsContext.Clone shares only immutable data, is exhibited by the correspondence run (partial by design). *)
+Definition C15_independence_of_go_objects_partial : Prop :=
+  forall s o s' w, step (fun b => b) s o = Some s' -> (match o with OSet v _ _ => w <> v | OCopy _ => True end) ->
+                   (w < length s)%nat -> nth_error s' w = nth_error s w.
+
+Example C15_nonvacuous :
+  let H := fun b : bytes => firstn 32 b in
+  let t := build H 2 (map Leaf [[1%N]; [2%N]; [3%N]]) in
+  exists t', set_field H 2 t 1 (Leaf [7%N]) = Some t' /\ get_field 2 t' 1 = Some (Leaf [7%N]) /\
+             get_field 2 t' 2 = Some (Leaf [3%N]) /\ get_field 2 t 1 = Some (Leaf [2%N]).
+Proof. simpl. eexists. repeat split. Qed.
